@@ -218,6 +218,25 @@ def run (ctx):
     rets = [n for n in g.nodes if n.kind == 'return']
     good = bool(rets) and all(any('==' in x and ('length' in x or 'len(o)' in x) for x in q.fact_strs(g, r)) for r in rets)
     ctx.ob('R-DOM', f, "unpack_new returns only after asserting consumed == declared length", good, "assert dominates the return" if good else "the consumed-length assertion no longer dominates the return: a decoder may consume bytes of the next message", f, 'D7')
+  # a sub-object packed with an option that drops items (omittable=True) while the length function counts them
+  for mod_ in (lof, nx):
+    for c_ in mod_.classes.values():
+      lens = [f_ for n_, f_ in c_.methods.items() if n_ in ('__len__', '_body_length')]
+      for n_, f_ in c_.methods.items():
+        if n_ not in ('pack', '_pack_body'): continue
+        for call in calls_in(f_.node):
+          if not (isinstance(call.func, ast.Attribute) and call.func.attr == 'pack'): continue
+          om = kwarg(call, 'omittable')
+          if om is None: continue
+          v_ = repo.try_const(mod_, om, c_, default='?')
+          if v_ in (False, None, 0): continue
+          if isinstance(om, ast.Name) and om.id in f_.params: continue          # passed through from the caller
+          sub = norm(call.func.value)
+          counted = any(('len(%s)' % sub) in norm(l_.node) for l_ in lens)
+          ctx.ob('R-AGREE', f_, "`%s` emits what the length function counts" % norm(call)[:60], not counted,
+                 "length does not count %s" % sub if not counted else
+                 "%s is packed with omittable=%s (fully wildcarded entries are left out) but %s counts len(%s): header length / match_len and the bytes emitted disagree for such entries" % (sub, norm(om), lens[0].qual if lens else '?', sub),
+                 (mod_, call), 'D4')
   # ---- D8 NXM -------------------------------------------------------------------------------------------------
   rows = repo.dynamic_global(nx, '__nxm_rows__')
   rows = rows[2] if rows else []
